@@ -39,6 +39,16 @@ def sessions(ctx):
             g = gen.SessionGen(ctx.seed * 86028121 + k, nconn=(1, 3), nmsg=(10, 40), junk=0.35, core=(True if k % 3 else None), unresolved=0.08,
                                titles=(0.0 if k % 3 else 0.2))
             s = g.session()
+            if k % 4 == 1:
+                # very long lines (a message on the wire is at most 4096 bytes, its printed line can be longer; chatter is not limited)
+                for e in s['events']:
+                    strs = [a for a in e['in'].get('m', {}).get('args', []) if a['k'] == 'str' and e['in'].get('m', {}).get('name') not in ('bind',)]
+                    if strs:
+                        strs[0]['s'] = 'long text ' * ctx.rnd.choice([410, 900]) + 'end'
+                        break
+                junk = [e for e in s['events'] if e['in']['e'] == 'junk']
+                if junk:
+                    junk[0]['in']['text'] = 'chatter ' * 800 + '.'
             render = {'dialect': ctx.rnd.choice(['old', 'new'])}
             yield s, render, 'random-chatter'
             for t in truncations(s, render, ctx.rnd, ctx.pick(3, 6)):
